@@ -160,12 +160,14 @@ class File:
         return [i for i in self.items if isinstance(i, Import)]
 
     def all_files(self) -> List["File"]:
-        """This file and everything it imports transitively, dependencies first."""
+        """This file and everything it imports transitively, dependencies first (import cycles tolerated)."""
         out: List[File] = []
+        visiting: List[File] = []
 
         def visit(f: "File") -> None:
-            if f in out:
+            if f in out or f in visiting:
                 return
+            visiting.append(f)
             for imp in f.imports:
                 visit(imp.file)
             out.append(f)
